@@ -171,6 +171,25 @@ func refRecvBody(sc Scn, src, view fsmodel.Tree, srcDir string, res *RefRecvRes)
 				return
 			}
 			srcFS = ffs
+		case "submap":
+			// a composite whose sub-root is a filter that drops (by its map function, i.e. after the stat was made) the
+			// first name of a hard-linked file: the remaining name is a file in its own right
+			mf, err := fsutil.NewFilterFS(srcFS, &fsutil.FilterOpt{Map: func(p string, _ *types.Stat) fsutil.MapResult {
+				if p == "a" {
+					return fsutil.MapResultExclude
+				}
+				return fsutil.MapResultKeep
+			}})
+			if err != nil {
+				x.Panic = err.Error()
+				return
+			}
+			sub, err := fsutil.SubDirFS([]fsutil.Dir{{Stat: &types.Stat{Path: "sub", Mode: uint32(fsmodel.GoMode(fsmodel.Node{Kind: fsmodel.Dir, Perm: 0755}))}, FS: mf}})
+			if err != nil {
+				x.Panic = err.Error()
+				return
+			}
+			srcFS = sub
 		case "subdir":
 			sub, err := fsutil.SubDirFS([]fsutil.Dir{{Stat: &types.Stat{Path: "sub", Mode: uint32(fsmodel.GoMode(fsmodel.Node{Kind: fsmodel.Dir, Perm: 0755}))}, FS: srcFS}})
 			if err != nil {
@@ -372,6 +391,20 @@ func runC06Job(t *testing.T, j *Job, r *evid.Run) *JobRes {
 		}
 		view.Sort()
 	}
+	if sc.Variant == "submap" {
+		view = fsmodel.Tree{{Path: "sub", Kind: fsmodel.Dir, Perm: 0755}}
+		for _, n := range src {
+			if n.Path == "a" {
+				continue
+			}
+			if n.Path == "h" {
+				n.HL = 0
+			}
+			n.Path = "sub/" + n.Path
+			view = append(view, n)
+		}
+		view.Sort()
+	}
 	if sc.Variant == "filtered" {
 		// include patterns b and h: the link source a of h is hidden, so h must be announced as a plain file
 		view = nil
@@ -524,6 +557,9 @@ func driveC06(p *Pool, r *evid.Run) {
 		add("v1", scr, "filtered", []string{"recv"}, []int{2}, true)
 	}
 	add("v1", []int{0}, "filtered", []string{"run"}, []int{1}, false) // the directory: must fail
+	for _, scr := range [][]int{{3}, {2, 3}, {3, 2}, {}} {
+		add("v1", scr, "submap", []string{"run", "recv"}, []int{1, 64}, false)
+	}
 	bound := 1
 	if !quick {
 		bound = 2
